@@ -458,7 +458,7 @@ def run(engine: str, req: dict) -> dict:
                         ent.setdefault("sql", {})[x] = {
                             "parse": r["parse"], "fixed_point": r["fixed_point"], "error": r["error"],
                             "cols": r["columns"], "rows": None if r["rows"] is None else [[jsonable(v) for v in row] for row in r["rows"]],
-                            "text": txt if (r["error"] or not r["fixed_point"]) else None, "rerendered": r.get("rerendered")}
+                            "text": txt, "rerendered": r.get("rerendered")}
                     except Exception as ex:  # noqa
                         ent.setdefault("sql", {})[x] = {"parse": False, "fixed_point": False, "error": "raise:" + type(ex).__name__ + ":" + str(ex)[:150]}
             except Exception as ex:  # noqa
